@@ -238,10 +238,53 @@ RunQNet(st, g) ==
     IN QNetP1(st, g1)
   ELSE QNetP2Items(st, g)
 
+(***************************************************************************)
+(* get_webentity_outlinks_iter / get_webentity_inlinks_iter(weid, ps):      *)
+(* the cited / citing webentities.  Traversal as for the page query; for a  *)
+(* page with links, one yield point after EVERY distinct target of its list *)
+(* (the list head is the one read when the page was met; a target's         *)
+(* webentity is resolved bottom-up when its turn comes).                    *)
+(***************************************************************************)
+NewLinksQuery(ps, out) ==
+  [kind |-> "qlinks", ps |-> ps, out |-> out, pi |-> 0, start |-> 0, stack |-> <<>>,
+   pend |-> [has |-> FALSE], cur |-> <<>>, seen |-> {}, acc |-> {}, phase |-> "run",
+   pages |-> 0, created |-> <<>>, done |-> FALSE, exc |-> ""]
+
+RECURSIVE QLinksLoop(_, _)
+QLinksLoop(st, g) ==
+  IF g.cur # <<>> THEN      \* next target of the current page's list: resolve, yield
+    LET tg == g.cur[1] IN
+    [st |-> st,
+     g |-> [g EXCEPT !.cur = Tail(@),
+                     !.acc = IF tg \in g.seen THEN @ ELSE @ \cup {WindupWe(st.trie, tg)},
+                     !.seen = @ \cup {tg}]]
+  ELSE IF g.pend.has THEN   \* the list of the suspended page is exhausted: push from the stale copy
+    QLinksLoop(st, [g EXCEPT !.stack = QPush(@, g.start, g.pend), !.pend = [has |-> FALSE]])
+  ELSE IF g.stack = <<>> THEN
+    IF g.pi >= Len(g.ps) THEN [st |-> st, g |-> [g EXCEPT !.done = TRUE]]
+    ELSE LET p == g.ps[g.pi + 1]
+             n == LruNode(st.trie, p)
+         IN IF n = 0 THEN [st |-> st, g |-> [g EXCEPT !.done = TRUE, !.exc = "TraphException"]]
+            ELSE QLinksLoop(st, [g EXCEPT !.pi = @ + 1, !.start = n,
+                                          !.stack = <<[b |-> n, pre |-> SubSeq(p, 1, Len(p) - 1)]>>])
+  ELSE LET top  == g.stack[Len(g.stack)]
+           rest == SubSeq(g.stack, 1, Len(g.stack) - 1)
+           node == st.trie[top.b]
+           rel  == top.b = g.start \/ node.we = 0
+           cur  == Append(top.pre, node.s)
+           pend == [has |-> TRUE, node |-> node, b |-> top.b, pre |-> top.pre, cur |-> cur, rel |-> rel]
+           head == IF g.out THEN node.o ELSE node.i
+       IN IF rel /\ node.pg /\ head # 0
+          THEN QLinksLoop(st, [g EXCEPT !.stack = rest, !.pend = pend, !.cur = Deduped(st.ls, head)])
+          ELSE QLinksLoop(st, [g EXCEPT !.stack = QPush(rest, g.start, pend)])
+
+RunQLinks(st, g) == QLinksLoop(st, g)
+
 RunGen(st, ram, def, g) ==
   IF g.kind = "crawl" THEN RunCrawl(st, ram, def, g)
   ELSE IF g.kind = "qpages" THEN RunQPages(st, g)
   ELSE IF g.kind = "qnet" THEN RunQNet(st, g)
+  ELSE IF g.kind = "qlinks" THEN RunQLinks(st, g)
   ELSE RunRule(st, ram, def, g)
 
 =============================================================================
